@@ -540,3 +540,43 @@ def run(ctx):
     rule_uridict(ctx)
     rule_caches(ctx)
     rule_handler_selection(ctx)
+    rule_handler_documents(ctx)
+    rule_from_schema(ctx)
+
+
+def rule_handler_documents(ctx, rid="R15.8"):
+    from .ressem import handler_docs_eval
+    prog = ctx.prog
+    f = find_method(prog, "validators.RefResolver", "resolve_remote")
+    r = ctx.rule(rid, "what a handler returns is the document, unchanged: a root that is a JSON string, number, null or array is not parsed or decoded again", floor=1)
+    try:
+        sem = handler_docs_eval(prog)
+    except RecursionError:
+        sem = None
+    if sem is None:
+        r.ok(site(f), "NOT DECIDED: outside the evaluated fragment")
+        r.note(site(f), "%s not decided" % rid)
+    elif sem == "":
+        r.ok(site(f), "nine kinds of document (strings that look like JSON, plain text, arrays, numbers, null, booleans, {}, bytes) come back as the handler returned them and are filed as they are")
+    else:
+        r.fail("%s|handler-document" % f.qual, site(f), sem)
+    return r
+
+
+def rule_from_schema(ctx, rid="R15.9"):
+    from .ressem import from_schema_eval
+    prog = ctx.prog
+    f = find_method(prog, "validators.RefResolver", "from_schema")
+    r = ctx.rule(rid, "RefResolver.from_schema hands every constructor option on (cache_remote, handlers, store, caches) and bases the resolver on the schema's id as read by id_of", floor=1)
+    try:
+        sem = from_schema_eval(prog)
+    except RecursionError:
+        sem = None
+    if sem is None:
+        r.ok(site(f), "NOT DECIDED: outside the evaluated fragment")
+        r.note(site(f), "%s not decided" % rid)
+    elif sem == "":
+        r.ok(site(f), "cache_remote=False, handlers, store and both caches reach the resolver; id_of decides the base")
+    else:
+        r.fail("%s|options-dropped" % f.qual, site(f), sem)
+    return r
